@@ -47,6 +47,16 @@ class GeneratedEvLogSampler:
             (resolve(loc.trigger), [resolve(field) for field in loc.fields]) for loc in generated.site_locations
         ]
 
+    def _values(self, site: int, field_readers: list[SignalReader]) -> list[int]:
+        # Backends return the bit pattern of a signal; the log holds the values of the fields.
+        values = []
+        for field, read in zip(self.generated.schema.sites[site].fields, field_readers):
+            value = read() & ((1 << field.width) - 1)
+            if field.signed and field.width and value >> (field.width - 1):
+                value -= 1 << field.width
+            values.append(value)
+        return values
+
     def sample(self, cycle: int, sink: RawEventSink) -> None:
         """Samples all emission sites and reports fired events to the sink."""
         if self._packed_triggers is not None:
@@ -55,8 +65,8 @@ class GeneratedEvLogSampler:
                 return
             for site, (_, field_readers) in enumerate(self._sites):
                 if packed >> site & 1:
-                    sink.emit_raw(cycle, site, [read() for read in field_readers])
+                    sink.emit_raw(cycle, site, self._values(site, field_readers))
         else:
             for site, (trigger_reader, field_readers) in enumerate(self._sites):
                 if trigger_reader():
-                    sink.emit_raw(cycle, site, [read() for read in field_readers])
+                    sink.emit_raw(cycle, site, self._values(site, field_readers))
